@@ -47,4 +47,22 @@ theorem C17_events_slice (c : Cfg) (slice : Bytes)
   simp only [List.flatten_cons, List.flatten_nil, List.append_nil] at h
   exact h.1
 
+/-! Non-vacuity (computed): a UTF-16LE input with mark, `a`, an astral character, a lone low surrogate, newline,
+`A` -- cut in the middle of code units -- whose decoded output is handed on 1 or 2 bytes at a time with an
+interrupted read into a 4-byte roll buffer: the guard holds, the matcher ("line contains x"... here: never) is on the
+slow path, and the callbacks equal those of the slice search of the transcoded text. -/
+def exMatcher : MatcherI := MatcherI.ofFindAt fun h at_ => if 97 ∈ h.drop at_ then some ⟨at_, h.length⟩ else none
+def exChunks : List Bytes := [[0xFF], [0xFE, 0x61, 0x00, 0x3D], [0xD8, 0x00, 0xDE, 0x00], [0xDC, 0x0A, 0x00, 0x41, 0x00]]
+def exLb : LineBuffer.Config := { capacity := 4, lineterm := 10, binary := .none, alloc := .eager }
+example : c17Guard ⟨none, true⟩ exChunks.flatten = true ∧
+    isLineByLineFast ({} : Searcher.Config) exMatcher (Core.new {} true) = false := by decide
+/-- all hypotheses of `C17_events` hold for this instance, so its conclusion is a fact about it -/
+example :
+    (readByLine {} exMatcher allCont exLb
+      ⟨readerOutput ⟨none, true⟩ (machines utf8Machine otherMachine) exChunks, [.ret 1, .intr, .ret 2, .ret 1], 0⟩).events =
+    (sliceByLine {} exMatcher allCont (searched otherSpec ⟨none, true⟩ exChunks.flatten)).events :=
+  (C17_events ⟨none, true⟩ exChunks (by decide) (by decide) {} exMatcher allCont rfl (by decide) exLb rfl rfl rfl
+    [.ret 1, .intr, .ret 2, .ret 1]
+    (by intro st h; simp at h; rcases h with h | h | h | h <;> subst h <;> simp)).1
+
 end RgVerif.Props.C17
